@@ -272,6 +272,7 @@ func IsLiteralCancelled(err error) bool {
 //
 //@ func (cont *ContinuationRequest) Cancel(err error)
 //@   props C18:post C12:post
+//@   ghost-inc cancelled when true
 //@   ensures cont.err != nil
 //@   ensures err != nil ==> cont.err == err
 //@   ensures cont.text == old(cont.text)
